@@ -50,13 +50,15 @@ def direct_child(idx, a, b):
 
 
 def consecutive(root, idx, a, b):
-    """a before b and no leaf of the tree strictly between them (in document order,
-    outside both).  Reverse order: EITHER ("are consecutive leaves" may be read
-    symmetrically).  Identical / nested nodes: False."""
+    """Documented only for leaves ("node_1 and node_2 are consecutive leaves"): a before b
+    and no other leaf strictly between them in document order.  Reverse order: EITHER
+    (the sentence can be read symmetrically).  Inner nodes: EITHER -- the shipped reST
+    formalization calls it on <enumeration_item> nodes separated by a newline leaf and relies
+    on that being "consecutive", so no generalisation to inner nodes is documented."""
     if a == b:
         return False
-    if inside(idx, a, b) or inside(idx, b, a):
-        return False
+    if at(root, a)[1] or at(root, b)[1]:
+        return EITHER
     if before(idx, b, a):
         return EITHER
     for p, st in paths(root):
